@@ -16,4 +16,5 @@ func resetGlobals() {
 	small, noCall, fullAmounts, call2, varyHash, medium = false, false, false, false, false, false
 	scnItems, scnDNS = nil, nil
 	counterReadFaults = false
+	wideNonce = false
 }
